@@ -180,14 +180,30 @@ def cover_walks(edges, initkey, max_len=40, seed=0, sample=None):
     return walks, unreachable + len(todo)
 
 
+WALKS_PER_PROCESS = 6000
+
+
 def replay_walks(chk, scen_path, cat_path, tag):
+    """Replays the walks on the real speaker.  Every walk owns a real layer2.Announce whose two
+    background goroutines never stop, so the scenario file is cut into pieces and each piece runs
+    in a process of its own."""
     obs_path = os.path.join(chk.work, "obs_%s.ndjson" % tag)
     ov = vlib.overlay_for(mapping(), chk.work)
-    rc, out = vlib.go_test("speaker", "^TestVerifSpeakerReplay$", ov,
-                           {"VERIF_SCENARIOS": scen_path, "VERIF_OBS": obs_path, "VERIF_SPKDOMAIN": cat_path,
-                            "VERIF_SEED": chk.seed})
-    if rc != 0:
-        raise vlib.Inconclusive("speaker harness failed (rc=%s):\n%s" % (rc, out[-3000:]))
+    lines = open(scen_path).read().splitlines()
+    with open(obs_path, "w") as out:
+        for k in range(0, len(lines), WALKS_PER_PROCESS):
+            part = os.path.join(chk.work, "scen_part.ndjson")
+            pobs = os.path.join(chk.work, "obs_part.ndjson")
+            with open(part, "w") as fh:
+                fh.write("\n".join(lines[k:k + WALKS_PER_PROCESS]) + "\n")
+            rc, res = vlib.go_test("speaker", "^TestVerifSpeakerReplay$", ov,
+                                   {"VERIF_SCENARIOS": part, "VERIF_OBS": pobs, "VERIF_SPKDOMAIN": cat_path,
+                                    "VERIF_SEED": chk.seed})
+            if rc != 0:
+                raise vlib.Inconclusive("speaker harness failed (rc=%s):\n%s" % (rc, res[-3000:]))
+            with open(pobs) as fh:
+                for l in fh:
+                    out.write(l)
     return obs_path
 
 
@@ -415,6 +431,9 @@ def run(chk):
     cat_path = catalog_dump(chk)
     for cfg, mode in CONFIGS[chk.prop][chk.tier]:
         run_cfg(chk, cfg, mode, cat_path)
+    if chk.cov["drift"]:
+        print("DRIFT: %d observation(s) where the old speaker, the fresh speaker actually started and the specification's "
+              "Fresh disagree in a way that is not a violation of %s (see evidence notes)" % (chk.cov["drift"], chk.prop))
     chk.cov["rule"] = ("speaker level: transitions of the bounded TLC state graph of SpeakerMC (service / endpoint / node / "
                        "configuration / memberlist changes, event deliveries in every order, re-sync passes) executed on the real "
                        "speaker controller through the real service, node and configuration reconcilers (edge cover by walks plus "
